@@ -23,6 +23,8 @@ var (
 	oidCurveSM2  = []byte{0x2a, 0x81, 0x1c, 0xcf, 0x55, 0x01, 0x82, 0x2d}
 	oidCurveP256 = []byte{0x2a, 0x86, 0x48, 0xce, 0x3d, 0x03, 0x01, 0x07}
 	oidCurveP384 = []byte{0x2b, 0x81, 0x04, 0x00, 0x22}
+	oidCurveP224 = []byte{0x2b, 0x81, 0x04, 0x00, 0x21} // 1.3.132.0.33
+	oidCurveP521 = []byte{0x2b, 0x81, 0x04, 0x00, 0x23} // 1.3.132.0.35
 	oidECPublic  = []byte{0x2a, 0x86, 0x48, 0xce, 0x3d, 0x02, 0x01}
 )
 
@@ -36,13 +38,31 @@ func ecFacts(k any) (d *big.Int, pub []byte, size int, curveOID []byte, ok bool)
 		return new(big.Int).SetBytes(v.Bytes()), v.PublicKey().Bytes(), 32, oidCurveSM2, true
 	case *ecdsa.PrivateKey:
 		size = (v.Curve.Params().N.BitLen() + 7) / 8
-		oid := oidCurveP256
-		if size == 48 {
-			oid = oidCurveP384
-		}
-		return v.D, elliptic.Marshal(v.Curve, v.X, v.Y), size, oid, true
+		return v.D, ecPoint(v.Curve, v.X, v.Y), size, nistOID(v.Curve), true
 	}
 	return nil, nil, 0, nil, false
+}
+
+// ecPoint is the uncompressed point with both coordinates left-padded to the
+// field size (SEC 1 section 2.3.3; 66 octets each for P-521).
+func ecPoint(c elliptic.Curve, x, y *big.Int) []byte {
+	size := (c.Params().BitSize + 7) / 8
+	return append([]byte{4}, append(x.FillBytes(make([]byte, size)), y.FillBytes(make([]byte, size))...)...)
+}
+
+// nistOID is the named-curve OID by the curve's field size (RFC 5480).
+func nistOID(c elliptic.Curve) []byte {
+	switch c.Params().BitSize {
+	case 224:
+		return oidCurveP224
+	case 256:
+		return oidCurveP256
+	case 384:
+		return oidCurveP384
+	case 521:
+		return oidCurveP521
+	}
+	return nil
 }
 
 func checkECPrivateKeyStructure(n *tlv, d *big.Int, pub []byte, size int, wantOID []byte, oidInside bool) error {
@@ -125,12 +145,16 @@ func formatCheck(s cspec, b *built) error {
 		}
 		return checkECPrivateKeyStructure(root.path(2, 0), d, pub, size, oid, false)
 	case "pkix":
-		var pub []byte
+		var pub, curveOID []byte
 		switch v := b.orig.(type) {
 		case *ecdsa.PublicKey:
-			pub = elliptic.Marshal(v.Curve, v.X, v.Y)
+			pub = ecPoint(v.Curve, v.X, v.Y)
+			curveOID = nistOID(v.Curve)
+			if v.Curve == sm2.P256() {
+				curveOID = oidCurveSM2
+			}
 		case *ecdh.PublicKey:
-			pub = v.Bytes()
+			pub, curveOID = v.Bytes(), oidCurveSM2
 		default:
 			return nil
 		}
@@ -141,8 +165,8 @@ func formatCheck(s cspec, b *built) error {
 		if len(root.kids) != 2 || root.kid(1).tag != 0x03 || !bytes.Equal(root.kid(1).content(), append([]byte{0}, pub...)) {
 			return fmt.Errorf("SubjectPublicKeyInfo BIT STRING is not the key's public point %x", pub)
 		}
-		if a := root.kid(0); len(a.kids) != 2 || !bytes.Equal(a.kid(0).content(), oidECPublic) {
-			return fmt.Errorf("SubjectPublicKeyInfo algorithm is %x", a.full())
+		if a := root.kid(0); len(a.kids) != 2 || !bytes.Equal(a.kid(0).content(), oidECPublic) || !bytes.Equal(a.kid(1).content(), curveOID) {
+			return fmt.Errorf("SubjectPublicKeyInfo algorithm is %x, want id-ecPublicKey with named curve %x", a.full(), curveOID)
 		}
 	case "raw-priv":
 		if !bytes.Equal(b.blob, ref.Bytes32(b.ki.d)) {
